@@ -47,6 +47,7 @@ TAG_GROUPS = {
     "@ic_push": "C05,C01,C02,C03,C04,C12,C13,C19",
     "@ic_index": "C05,C01,C02,C03,C04,C12,C13,C19",
     "@ic_len": "C05,C01,C02,C03,C04,C12,C13,C19",
+    "@ic_is_empty": "C05,C03",
     "@ic_clear": "C05,C08,C03,C12",
     "@ic_reserve": "C05,C10,C03",
 }
@@ -282,7 +283,8 @@ def find_loops(body):
 
 
 class World:
-    def __init__(self, tmpl_path, repo, canary_mode=False, flags=()):
+    def __init__(self, tmpl_path, repo, canary_mode=False, flags=(), external=()):
+        self.external = set(external)   # fn ids whose body is outside the dialect on this tree: emitted as external_body
         self.canary_mode = canary_mode
         self.flags = set(flags) | ({"canary"} if canary_mode else set())
         self.tmpl_path = tmpl_path
@@ -504,6 +506,9 @@ class World:
             c = make_canary(len(self.canaries), fid, head, contract, self.cur_impl[1] if self.cur_impl else None)
             if c:
                 self.canaries.append((c[0], fid, c[1]))
+        if fid in self.external:
+            # the body contains a construct Verus cannot read: keep the contract (callers still use it) but do not verify
+            self.emit(indent + "#[verifier::external_body]", fn=fid, part="sig")
         self.emit(indent + head.replace("\n", "\n" + indent), fn=fid, part="sig")
         if where_txt:
             self.emit(indent + "    " + " ".join(where_txt.split()), fn=fid, part="sig")
@@ -514,7 +519,7 @@ class World:
                                    hash=body_hash(it.text), rules=log, tags=[t for t in d.get("tags", "").split(",") if t],
                                    reading=d.get("reading", "total"), kind="fn",
                                    clauses=[l for (l, _) in contract if l], cex=d.get("cex"),
-                                   shadow=d.get("shadow") == "1",
+                                   shadow=d.get("shadow") == "1", external=fid in self.external,
                                    clause_tags=clause_tags or {}, safety_tags=[t for t in d.get("safety", d.get("tags", "")).split(",") if t]))
 
 
@@ -627,8 +632,8 @@ def make_canary(k, fid, head, contract, impl_header):
     return name, text
 
 
-def build(tmpl_path, repo, out_path, canary_mode=False, flags=()):
-    w = World(tmpl_path, repo, canary_mode, flags)
+def build(tmpl_path, repo, out_path, canary_mode=False, flags=(), external=()):
+    w = World(tmpl_path, repo, canary_mode, flags, external)
     text = w.generate()
     os.makedirs(os.path.dirname(out_path), exist_ok=True)
     with open(out_path, "w") as f:
